@@ -122,5 +122,7 @@ void harness(void) {
 	if (res == KSI_OK && parent.nested == &g_bl_list && g_bl_count == 0) REACH("empty payload, empty list");
 	if (res == KSI_INVALID_FORMAT) REACH("payload does not tile");
 	if (res == KSI_OUT_OF_MEMORY) REACH("allocation failure");
+	/* (audit builderY, dfcc __invalid_ptr sharing) the replaced readFirstTlv returns nothing at a LATER loop iteration, after it returned an element */
+	if (res == KSI_INVALID_FORMAT && g_bl_count >= 1) REACH("a later child cannot be read, after one or more children were read");
 }
 #endif
